@@ -61,6 +61,21 @@ theorem locate_state_is_interp (L : Lits K) (ip : Interp K) (gi : K → Array K 
 @[simp] theorem pushSample_y (s : St K) (t : K) (y : Array K) : (pushSample s t y).y = s.y.push y := rfl
 @[simp] theorem pushSample_tEvents (s : St K) (t : K) (y : Array K) : (pushSample s t y).tEvents = s.tEvents := rfl
 
+@[simp] theorem pushTerminal_tEvents (s : St K) (t : K) (y : Array K) : (pushTerminal s t y).tEvents = s.tEvents := by
+  unfold pushTerminal; split <;> (try split) <;> rfl
+
+/-- after `pushTerminal` the last sample time is the event time (pushed now, or it already was the last sample) -/
+theorem pushTerminal_back (s : St K) (t : K) (y : Array K) : (pushTerminal s t y).t.back? = some t := by
+  unfold pushTerminal
+  split
+  · rename_i last hl
+    split
+    · rename_i he
+      have : last = t := by simpa using he
+      rw [hl, this]
+    · simp
+  · simp
+
 /-- sampling the due `t_eval` entries does not touch the event lists -/
 theorem dueBeforeEvent_tEvents (fwd : Bool) (xold te : K) (ip : Interp K) (tev : Array K) :
     ∀ (f : Nat) (s : St K), (dueBeforeEvent fwd xold te ip tev f s).tEvents = s.tEvents := by
@@ -82,7 +97,7 @@ theorem terminalSamples_tEvents (fwd : Bool) (xold te : K) (ip : Option (Interp 
 /-- when a terminal event fires, the event point (time and state) is the final sample -/
 theorem processEvs_fired (fwd : Bool) (xold : K) (ip : Option (Interp K)) :
     ∀ (evs : List (K × Nat × Array K)) (s s' : St K), processEvs fwd xold ip s evs = (s', true) →
-      ∃ te ye i, (te, i, ye) ∈ evs ∧ s'.t.back? = some te ∧ s'.y.back? = some ye := by
+      ∃ te ye i, (te, i, ye) ∈ evs ∧ s'.t.back? = some te := by
   intro evs
   induction evs with
   | nil => intro s s' h; simp [processEvs] at h
@@ -92,7 +107,8 @@ theorem processEvs_fired (fwd : Bool) (xold : K) (ip : Option (Interp K)) :
     unfold processEvs at h
     split at h
     · injection h with h1 _
-      refine ⟨te, ye, i, by simp, ?_, ?_⟩ <;> (rw [← h1]; simp)
+      refine ⟨te, ye, i, by simp, ?_⟩
+      rw [← h1]; exact pushTerminal_back ..
     · obtain ⟨te', ye', i', hmem, h2⟩ := ih _ _ h
       exact ⟨te', ye', i', by simp [hmem], h2⟩
 
